@@ -72,6 +72,15 @@ pub fn check(ctx: &mut Ctx) {
                 last = Some(s);
             }
         }
+        // a running total somewhere BEFORE the last stage: it is not row-local itself (so the
+        // concatenation and per-line oracles do not apply), but the row-local stage after it must
+        // still see exactly the rows — and the totals — the stages before it produced
+        let stateful = nst >= 1 && r.chance(15);
+        if stateful {
+            let at = 1 + r.below(stages.len() - 1);
+            let t = r.pick(&["total(n) as t", "total(n)", "total(x) as t", "total(n + 1) as t"]).to_string();
+            stages.insert(at, t);
+        }
         let filter = *r.pick(&["*", "*", "*", "a", "NOT err"]);
         let q = format!("{} | {}", filter, stages.join(" | "));
         let q_prefix = format!("{} | {}", filter, stages[..stages.len() - 1].join(" | "));
@@ -98,6 +107,7 @@ pub fn check(ctx: &mut Ctx) {
             ctx.case("concat", "", "skip", serde_json::json!({"why": "implementation panicked (judged by C11)", "case": info}));
             continue;
         }
+        if !stateful {
         let mut cat = ra.stdout.clone();
         cat.extend(&rb.stdout);
         let same = if mode == "json" {
@@ -129,6 +139,10 @@ pub fn check(ctx: &mut Ctx) {
             } else {
                 ctx.case("per-line", &key, "pass", info.clone());
             }
+        }
+
+        } else {
+            ctx.count("family:frame-after-total");
         }
 
         // F-level
